@@ -107,6 +107,15 @@ def run_vars(tape, env, viol, history, want_c10=False):
             stmts.append(("var", dst, src, None))
             env.world.count("c09/cell-copied-to-wider-variable")
             continue
+        narrow_regs = [r for r in regs if r[1] in ("I", "H", "B")]
+        if narrow_regs and dst[1] in ("Q", "q") and tape.chance("c09/from-32-bit-register", 40):
+            # a 64-bit variable is given a large value and then the 32-bit view of a
+            # register (wN): the cell then holds those 32 bits and nothing else
+            big = (1 << 62) - 1 - tape.draw("c09/stale-upper-half", 1 << 40)
+            stmts.append(("tmp", dst, big, None))
+            stmts.append(("wreg", dst, tape.pick("c09/usewreg", narrow_regs), None))
+            env.world.count("c09/32-bit-register-view-assigned-to-64-bit-variable")
+            continue
         if kind == 2 and regs:
             stmts.append(("reg", dst, tape.pick("c09/usereg", regs), k))
         elif kind == 3:
@@ -142,6 +151,8 @@ def run_vars(tape, env, viol, history, want_c10=False):
             elif kind == "reg":
                 r = (self.sr if src[1].islower() else self.r)[src[0]]
                 setattr(self, dst[0], r if k is None else r + k)
+            elif kind == "wreg":
+                setattr(self, dst[0], self.w[src[0]])
             else:
                 t = "stmp" if dst[1].islower() else "tmp"
                 with getattr(self, t):
@@ -225,7 +236,7 @@ def run_vars(tape, env, viol, history, want_c10=False):
             for kind, dst, src, k in stmts:
                 # 64-bit cells; a sum that leaves the declared format's range is not
                 # judged any more (check() skips out-of-range cells)
-                v = model[src[0]] if kind == "var" else src[2] if kind == "reg" else src
+                v = model[src[0]] if kind == "var" else src[2] if kind in ("reg", "wreg") else src
                 model[dst[0]] = v if k is None else v + k
             history.append(("run",))
             if observe:
@@ -289,6 +300,10 @@ def run_dict(tape, env, viol, history, want_c10=False):
         ns["hm"] = hm
         ns["hv0"] = hm.globalVar("I", 7)
         ns["hv1"] = hm.globalVar("I", 9)
+        # two 8-byte cells, one copied into the other while an entry is looked at
+        ns["hv2"] = hm.globalVar("Q", 3)
+        ns["hv3"] = hm.globalVar("Q", 5)
+    copy_in_lookup = bool(extra & 1) and tape.chance("c09/cell-copy-inside-lookup", 60)
     if extra & 2:
         ns["loc"] = LocalVar(tape.pick("c09/locfmt", ["I", "Q", "H", "B"]))
     if extra & 4:
@@ -318,6 +333,8 @@ def run_dict(tape, env, viol, history, want_c10=False):
             self.res = self.sr0
         with Else:
             with self.table.lookup() as (value, Else2):
+                if copy_in_lookup:
+                    self.hv2 = self.hv3       # a whole-cell copy while r0 points at the entry
                 for i in range(len(vf)):
                     setattr(self, f"o{i}", getattr(value, f"m{i}"))
                 with self.op == 2:
@@ -494,11 +511,27 @@ def run_dict(tape, env, viol, history, want_c10=False):
             val = tuple(draw_in_range(tape, f, "c09/val") for f in vf)
             for i, v in enumerate(val):
                 setattr(p, f"v{i}", v)
+            if copy_in_lookup:
+                src = tape.pick("c09/copied-cell-value", [5, 0, 1 << 63, (1 << 64) - 1,
+                                                          0x1122334455667788])
+                p.hv3 = src
+                p.hv2 = 3
             try:
                 kernel.run_xdp(prog, bytearray(64))
             except Exception as e:
                 viol("interpreter-fault", f"{type(e).__name__}: {e}", part="dict")
                 return desc
+            if extra & 1 and pop == 1 and p.hv0 != 9:
+                viol("hash-variable-differs", f"{where}: the cell copied from one that holds 9 "
+                     f"holds {p.hv0}", fmt="I", byteorder="", copied=True)
+            if copy_in_lookup and pop != 1:
+                want = src if key in model else 3
+                if p.hv2 != want or p.hv3 != src:
+                    viol("hash-variable-differs", f"{where}: inside the lookup of "
+                         f"{'a present' if key in model else 'an absent'} key one cell was "
+                         f"copied into another: source {p.hv3:#x} (written {src:#x}), "
+                         f"destination {p.hv2:#x}, expected {want:#x}", fmt="Q", byteorder="",
+                         copied=True)
             if pop == 1:
                 full = key not in model and len(model) >= size
                 if (p.res == 0) == full:
